@@ -125,7 +125,10 @@ func Verif_C06_InvalidSettings() {
 	sc := scen.Payload(scen.Options{})
 	info := sc.Info
 	format := ""
-	switch v.NondetChoice("class", 8) {
+	switch v.NondetChoice("class", 9) {
+	case 8: // rpm epoch that does not fit the 32-bit header tag
+		format = "rpm"
+		info.Epoch = []string{"4294967296", "4294967297", "8589934591", "99999999999"}[v.NondetChoice("big.epoch", 4)]
 	case 7: // archlinux package name of allowed characters that starts with '-' or '.'
 		format = "archlinux"
 		rest := v.NondetStringRange("name.rest", 0, 3)
